@@ -38,6 +38,7 @@ with query :=
        (group : list expr) (having : option expr) (order : list (expr * (bool * bool)))
        (limit offset : option nat)
 | QUnion (all : bool) (a b : query)
+| QSetOp (op : setop) (all : bool) (a b : query)
 | QWith (ctes : list (name * query)) (q : query)
 with from :=
 | FTab (parts : list name) (alias : option name)
@@ -239,6 +240,10 @@ with eval_q (f : nat) (cx : ctx) (q : query) {struct f} : frame :=
         let fa := eval_q f' cx a in let fb := eval_q f' cx b in
         if frame_err fa || frame_err fb then err_frame else
         (fst fa, if all then snd fa ++ snd fb else distinct (snd fa ++ snd fb))
+    | QSetOp op all a b =>
+        let fa := eval_q f' cx a in let fb := eval_q f' cx b in
+        if frame_err fa || frame_err fb then err_frame else
+        (fst fa, set_op op all (snd fa) (snd fb))
     | QWith ctes q' =>
         let cx' := fold_left (fun c nq => mkCtx (c_db c) (c_prefix c) (c_res c)
                                                 ((fst nq, eval_q f' c (snd nq)) :: c_ctes c) (c_vars c)) ctes cx in
@@ -319,6 +324,7 @@ Inductive pstep :=
 | PEval (q : query)                             (* SubSelectStep / QueryStep: q reads FRes k *)
 | PJoin (k : jkind) (l r : nat) (on : option expr)
 | PUnion (l r : nat) (all : bool)
+| PSetOp (op : setop) (l r : nat) (all : bool)
 | PProject (k : nat) (ts : list target)
 | PLimit (k : nat) (limit offset : option nat)
 | PFilter (k : nat) (e : expr)
@@ -337,6 +343,11 @@ Fixpoint exec_step (fuel : nat) (db : list (list name * (list name * rel))) (res
     | PUnion l r all =>
         match nth_error res l, nth_error res r with
         | Some a, Some b => (fst a, if all then snd a ++ snd b else distinct (snd a ++ snd b))
+        | _, _ => err_frame
+        end
+    | PSetOp op l r all =>
+        match nth_error res l, nth_error res r with
+        | Some a, Some b => (fst a, set_op op all (snd a) (snd b))
         | _, _ => err_frame
         end
     | PProject k ts => eval_q fuel (mkCtx db [] res [] vars)
